@@ -9,7 +9,8 @@
    StatusMessage (status.go's keyed table) is a parameter: the theorems assume its answers are CR/LF-free, which
    the harness checks on the real function for every code in -5..1200. *)
 From FH Require Import Model.Base Gen.GenC05 Model.ByteClassModel Model.Cookie Model.HeaderWrite Spec.HeadLines
-  Proof.HeaderWriteProof Check.C05Check.
+  Model.ReqUri Proof.HeaderWriteProof Proof.ReqUriProof Check.C05Check.
+From FH Require Model.Args.
 Open Scope N_scope.
 
 (* removeNewLines: no CR/LF in the result, length preserved, every other byte unchanged — for all byte strings *)
@@ -102,6 +103,31 @@ Theorem C05_body_boundary :
 Proof. split; [exact ResponseWrite_one_message|exact RequestWrite_one_message]. Qed.
 Print Assumptions C05_body_boundary.
 
+(* the URI object (req.URI()): Request.Write rebuilds the request line and Host from it.  Its setters store bytes
+   verbatim — SetQueryString(Bytes) raw, SetPath(Bytes) raw in PathOriginal (sent as is under DisablePathNormalizing) —
+   and URI.RequestURI() composes path + '?' + raw query string / encoded query args (Model/ReqUri.v).  Whatever the
+   state of the object, i.e. after ANY sequence of URI setter calls with ANY byte strings and any normalizePath:
+   the request line carries the NEUTRALISED RequestURI(), and the message is one message as in C05_body_boundary. *)
+Theorem C05_uri_object : forall normalizePath ops parsed useHost u0 uops body q' out,
+  Forall qop_pre ops ->
+  let u := urun normalizePath u0 uops in
+  RequestWriteU (qrun ops) parsed useHost u body = Some (q', out) ->
+  (beq (QHost (qrun ops)) [] || parsed = true -> quri q' = neutralise (URequestURI u)) /\
+  nc (req_first q') /\
+  exists sent', (sent' = body \/ sent' = []) /\
+    out = render_head (req_first q') (req_entries q') ++ sent' /\
+    peer_sees req_auto (strAuthorization :: flat_map qop_keys ops) (req_first q') sent' (read_head out).
+Proof. exact RequestWriteU_one_message. Qed.
+Print Assumptions C05_uri_object.
+
+(* and the rebuilt request line is exactly the sanitised input, for arbitrary URI-derived bytes *)
+Theorem C05_request_line_sanitised : forall q parsed useHost uh uu user pass body q' out,
+  RequestWrite q parsed useHost uh uu user pass body = Some (q', out) ->
+  (beq (QHost q) [] || parsed = true -> quri q' = neutralise uu) /\
+  (beq (QHost q) [] || parsed = false -> quri q' = quri q).
+Proof. exact RequestWrite_request_line. Qed.
+Print Assumptions C05_request_line_sanitised.
+
 (* proxy CONNECT: refused exactly when the target has CR or LF; otherwise one head with Host (+ Proxy-Authorization) *)
 Theorem C05_connect_target : forall addr auth body, nc auth ->
   match connectRequest addr auth with
@@ -125,6 +151,15 @@ Proof. vm_compute. reflexivity. Qed.
 Example C05_ex_request :
   ReqAppendBytes [] (qrun [QOSetMethod (h "4745540d0a58"); QOSetHost (h "680d0a483a69"); QOSetCookie (h "61") (h "623b0d0a633d64")])
   = s2b "GET  X / HTTP/1.1" ++ [13; 10] ++ s2b "Host: h  H:i" ++ [13; 10] ++ s2b "Cookie: a=b   c=d" ++ [13; 10; 13; 10].
+Proof. vm_compute. reflexivity. Qed.
+(* the raw query string of the URI object reaches the request line only neutralised *)
+Example C05_ex_uri_query :
+  match RequestWriteU (qrun [QOSetRequestURI (s2b "http://example.com/p")]) true false
+          (urun (fun p => p) (mkUriObj (s2b "example.com") (s2b "/p") (s2b "/p") [] Args.emptyArgs false false [] [])
+             [UOSetQueryString (s2b "a=1 HTTP/1.1" ++ [13; 10] ++ s2b "X-Injected: yes")]) [] with
+  | Some (_, out) => out = s2b "GET /p?a=1 HTTP/1.1  X-Injected: yes HTTP/1.1" ++ [13; 10] ++ s2b "Host: example.com" ++ [13; 10; 13; 10]
+  | None => False
+  end.
 Proof. vm_compute. reflexivity. Qed.
 (* scope: SetCanonical stores its key verbatim — a CR/LF in that key is outside the property ("normalising setters") *)
 Example C05_scope_setcanonical_key :
